@@ -20,7 +20,7 @@ var ghostBuiltins = map[string]bool{
 	"implies": true, "iff": true, "forall": true, "exists": true, "old": true, "has": true,
 	"lo": true, "hi": true, "at": true, "held": true, "typeIs": true, "gint": true, "allocated": true,
 	"sameArray": true, "refOf": true, "nonNil": true, "dynRef": true, "before": true,
-	"glen": true, "gentry": true, "gfield": true, "gfieldS": true, "mulGE": true,
+	"glen": true, "gentry": true, "gfield": true, "gfieldS": true, "mulGE": true, "ptrAt": true, "sliceRef": true, "elemAt": true,
 }
 
 func (x *Exec) isGhostBuiltin(fn *ssa.Function) bool {
@@ -73,6 +73,9 @@ func (x *Exec) callCommon(f *frame, c *ssa.CallCommon, args []*Val, st *State, p
 		return x.callStatic(callee.Fn.(*ssa.Function), args, cv.Fn.Bindings, st, pos)
 	}
 	fv := x.val(f, c.Value)
+	if fv.K == KFunc && fv.Fn != nil && fv.Fn.Fn == nil && fv.Fn.Harmless {
+		return x.freshResults(st, sig, "opaquefn")
+	}
 	if fv.K == KFunc && fv.Fn != nil && fv.Fn.Fn != nil {
 		return x.callStatic(fv.Fn.Fn, args, fv.Fn.Bindings, st, pos)
 	}
@@ -404,6 +407,24 @@ func (x *Exec) ghost(name string, fn *ssa.Function, args []*Val, st *State, pos 
 		x.sc.bridge[-1] = true // natmul
 		bc := "(natmul " + n(args[2]) + " " + n(args[3]) + ")"
 		return scalar(boolT, "(>= (* "+n(args[0])+" "+n(args[1])+") (* "+bc+" "+n(args[4])+"))", "Bool")
+	case "sliceRef":
+		return scalar(types.Typ[types.Int], x.intAsGo(args[0].E[0].S), I)
+	case "elemAt":
+		targs := fn.TypeArgs()
+		ref, idx := args[0].S, args[1].S
+		if x.sc.bvMode {
+			x.sc.bridge[64] = true
+			ref = "(nat64 " + ref + ")"
+		}
+		return x.load(st, &Ptr{Kind: PElem, Ref: ref, Idx: idx, Root: targs[0]})
+	case "ptrAt":
+		targs := fn.TypeArgs()
+		ref := args[0].S
+		if x.sc.bvMode {
+			x.sc.bridge[64] = true
+			ref = "(nat64 " + ref + ")"
+		}
+		return &Val{K: KPtr, T: types.NewPointer(targs[0]), P: &Ptr{Kind: PHeap, Ref: ref, Root: targs[0]}}
 	case "allocated":
 		// the object existed when the function under verification was entered
 		p := args[0]
@@ -469,6 +490,9 @@ func (x *Exec) contractCall(fn *ssa.Function, key string, ctr *Contract, args []
 	}
 	inst := map[string]*Val{}
 	bindingVals := x.bindingValues(st, fn, bindings)
+	savedCF := x.clauseFn
+	x.clauseFn = fn
+	defer func() { x.clauseFn = savedCF }()
 	for _, cl := range ctr.Requires {
 		if strings.HasPrefix(cl.Label, "ASSUME.") {
 			continue
